@@ -815,7 +815,7 @@ def run(ctx, rep):
     rep.extra["phase_s"]["shards_geom"] = round(time.time() - t0, 1); t0 = time.time()
     bad_r = vlib.run_shards(ctx, rep, "resolve", HEADER, "check_resolve", rcases, shard=10) if rcases else []
     rep.extra["phase_s"]["shards_resolve"] = round(time.time() - t0, 1); t0 = time.time()
-    bad_s = vlib.run_shards(ctx, rep, "session", HEADER, "check_session", SESS["cases"], shard=8) if SESS["cases"] else []
+    bad_s = vlib.run_shards(ctx, rep, "session", HEADER, "check_session", SESS["cases"], shard=8, case_type="scase") if SESS["cases"] else []
     rep.extra["phase_s"]["shards_session"] = round(time.time() - t0, 1); t0 = time.time()
     coverage_flags(ctx, rep, gcases, gmeta)
     rep.extra["phase_s"]["geom_coverage"] = round(time.time() - t0, 1)
